@@ -2,11 +2,14 @@
     Property theorems only: statements in full, each closed by [exact] of a lemma proved elsewhere.
     [A] is ANY scalar type (in particular the statements that carry no algebraic hypothesis hold for IEEE floats with
     torch's deterministic element-wise functions); [fs] are ANY node functions of the form their op-kind dictates. *)
-From Coq Require Import ZArith List Bool Arith PeanoNat Permutation.
+From Coq Require Import ZArith QArith List Bool Arith PeanoNat Permutation.
+From Leaspy Require Import Sampler.SamplerModel Saem.Anneal Sampler.AdaptiveStd Api.Personalize Api.PersonalizeChain Api.PersonalizeChainProofs
+  Compose.ChainLocality Compose.ChainLocalityProofs Compose.ChainLocalityExamples.
 From Leaspy Require Import Locality.AxisTypes Locality.AxisProofs Locality.SamplerRows Locality.SamplerRowsProofs
-  Locality.Shipped Locality.AxisExamples.
-From LeaspyGen Require Import GenC07.
+  Locality.Shipped Locality.AxisExamples Locality.SamplerReadsTie.
+From LeaspyGen Require Import GenC07 GenC07Reads.
 Import ListNotations.
+Close Scope Q_scope.
 
 (** Core: re-indexing the individual axis of the inputs by any list [p] of valid positions (a permutation, one
     individual alone, a sub-cohort, duplicates) re-indexes every node that is not an aggregate over individuals;
@@ -186,3 +189,121 @@ Theorem C07_illtyped_rejected_and_not_local :
   vrow Z 0 (match eval Z Z.add toy_bad toy_fs (toy_inp ys2) 3 6 with Some v => v | None => VPop [] end).
 Proof. split; [exact toy_well_typed | split; [exact toy_bad_rejected | exact toy_bad_not_local]]. Qed.
 Print Assumptions C07_illtyped_rejected_and_not_local.
+
+(** Extension — which nodes [IndividualGibbsSampler.sample] reads is no longer taken from the source by hand: every use of
+    `state` in that method, the decision expression of `_group_metropolis_step`, the std update and the shapes of the
+    adapted std / acceptance window, regenerated with python `ast`, ARE the header of Locality/SamplerRows.v. *)
+Theorem C07_sample_reads_tie :
+  gen_sample_reads = sample_reads /\ gen_sample_writes = sample_writes /\ gen_group_decision = group_decision /\
+  gen_std_update = std_update /\ gen_acceptation_update = acceptation_update /\
+  gen_shape_adapted_std = shape_adapted_std /\ gen_shape_acceptation = shape_acceptation.
+Proof. exact sample_reads_tie. Qed.
+Print Assumptions C07_sample_reads_tie.
+
+(** ... and in every shipped graph, for every individual latent variable, each of these nodes carries the individual axis
+    and is not an aggregate over individuals (the hypothesis of [C07_sampler_rows] on [reads]). *)
+Theorem C07_sample_reads_local : sample_reads_local shipped shipped_reads = true /\ length shipped_reads = shipped_expected.
+Proof. split; vm_compute; reflexivity. Qed.
+Print Assumptions C07_sample_reads_local.
+
+(** Extension — the GENERATED personalisation chain (C17's [personalize_run]: C03's individual step iterated at the C19
+    temperatures and proposal scales on a tape of draws) is row-local.  Two cohorts of any sizes; the individual sits at position
+    j1 of the first and j2 of the second; it owns the same rows of the initial values and of every position-indexed draw
+    ([own_draws]: row j of every normal draw, entry j of every uniform draw); its attachment / regularity entries agree whenever
+    its own rows agree ([row_local], i.e. [C07_locality] read on the individual variables).  What a cohort SHARES is common to
+    the two runs: sampler settings, annealing settings, burn-in, the order of the variables at each iteration ([orders]: ONE
+    `random.shuffle` per iteration for everybody), the sampler scales.  Then: its whole chain ([o_all]), what is appended to the
+    histories for it, at every sampler call the proposal scale std[j] and the decision accepted[j], its final values, the
+    counter / std[j] / acceptance column j of every sampler, and the annealing state are IDENTICAL — whatever the data, the
+    initial values and the draws of the other individuals are. *)
+Theorem C07_chain_local : forall (A : Type) (add mul : A -> A -> A) (ofQ : Q -> A) (decide : A -> A -> A -> A -> A -> A -> bool)
+    (att1 att2 : istate A -> list A) (regv1 regv2 : nat -> istate A -> list A) (regsum1 regsum2 : istate A -> list A)
+    (scf : scfg) (acf : Anneal.cfg) (nb : Z) (random_order : bool) (n1 n2 j1 j2 : nat) (sizes : list nat),
+  (j1 < n1)%nat -> (j2 < n2)%nat ->
+  row_local n1 n2 j1 j2 sizes att1 att2 -> (forall v, row_local n1 n2 j1 j2 sizes (regv1 v) (regv2 v)) ->
+  row_local n1 n2 j1 j2 sizes regsum1 regsum2 ->
+  forall orders init1 init2 scales T1 T2 o1 o2,
+  shaped n1 sizes init1 -> shaped n2 sizes init2 -> own j1 init1 = own j2 init2 ->
+  tape_fits n1 sizes random_order (length init1) orders T1 -> tape_fits n2 sizes random_order (length init2) orders T2 ->
+  own_draws j1 T1 = own_draws j2 T2 ->
+  personalize_run A add mul ofQ decide att1 regv1 regsum1 scf acf nb random_order n1 orders init1 scales (flat_tape (concat T1)) = Done o1 ->
+  personalize_run A add mul ofQ decide att2 regv2 regsum2 scf acf nb random_order n2 orders init2 scales (flat_tape (concat T2)) = Done o2 ->
+  own_col j1 (o_all o1) = own_col j2 (o_all o2) /\ own_col j1 (o_hist o1) = own_col j2 (o_hist o2) /\
+  own_trace j1 (o_trace o1) = own_trace j2 (o_trace o2) /\
+  own j1 (r_vals (o_rs o1)) = own j2 (r_vals (o_rs o2)) /\
+  map (own_samp j1) (r_samp (o_rs o1)) = map (own_samp j2) (r_samp (o_rs o2)) /\ o_ast o1 = o_ast o2.
+Proof. exact chain_local. Qed.
+Print Assumptions C07_chain_local.
+
+(** ... hence, on a rational run, the same mode estimate ([mode_row]: first kept draw of lowest loss) and the same mean
+    estimate (every coordinate) by the EXISTING estimators of C17 applied to the generated chains. *)
+Theorem C07_chain_estimates : forall add mul ofQ decide att1 att2 regv1 regv2 regsum1 regsum2 scf acf nb random_order n1 n2 j1 j2 sizes
+    orders init1 init2 scales T1 T2 o1 o2,
+  (j1 < n1)%nat -> (j2 < n2)%nat ->
+  row_local n1 n2 j1 j2 sizes att1 att2 -> (forall v, row_local n1 n2 j1 j2 sizes (regv1 v) (regv2 v)) ->
+  row_local n1 n2 j1 j2 sizes regsum1 regsum2 ->
+  shaped n1 sizes init1 -> shaped n2 sizes init2 -> own j1 init1 = own j2 init2 ->
+  tape_fits n1 sizes random_order (length init1) orders T1 -> tape_fits n2 sizes random_order (length init2) orders T2 ->
+  own_draws j1 T1 = own_draws j2 T2 ->
+  personalize_run Q add mul ofQ decide att1 regv1 regsum1 scf acf nb random_order n1 orders init1 scales (flat_tape (concat T1)) = Done o1 ->
+  personalize_run Q add mul ofQ decide att2 regv2 regsum2 scf acf nb random_order n2 orders init2 scales (flat_tape (concat T2)) = Done o2 ->
+  let N := Z.of_nat (length orders) in
+  mode_row (history (chain_q (o_all o1)) N nb) j1 = mode_row (history (chain_q (o_all o2)) N nb) j2 /\
+  forall c, mean_coord (history (chain_q (o_all o1)) N nb) j1 c = mean_coord (history (chain_q (o_all o2)) N nb) j2 c.
+Proof. exact chain_estimates_local. Qed.
+Print Assumptions C07_chain_estimates.
+
+(** (b) permuting the individuals (initial values, draws, oracles) permutes the chains, the decisions and the sampler states *)
+Theorem C07_chain_equivariance : forall A add mul ofQ decide att1 att2 regv1 regv2 regsum1 regsum2 scf acf nb random_order n (p : nat -> nat) sizes
+    orders init1 init2 scales T1 T2 o1 o2,
+  (forall i, (i < n)%nat -> (p i < n)%nat) ->
+  (forall i, (i < n)%nat -> row_local n n (p i) i sizes att1 att2) ->
+  (forall i, (i < n)%nat -> forall v, row_local n n (p i) i sizes (regv1 v) (regv2 v)) ->
+  (forall i, (i < n)%nat -> row_local n n (p i) i sizes regsum1 regsum2) ->
+  shaped n sizes init1 -> shaped n sizes init2 -> (forall i, (i < n)%nat -> own (p i) init1 = own i init2) ->
+  tape_fits n sizes random_order (length init1) orders T1 -> tape_fits n sizes random_order (length init2) orders T2 ->
+  (forall i, (i < n)%nat -> own_draws (p i) T1 = own_draws i T2) ->
+  personalize_run A add mul ofQ decide att1 regv1 regsum1 scf acf nb random_order n orders init1 scales (flat_tape (concat T1)) = Done o1 ->
+  personalize_run A add mul ofQ decide att2 regv2 regsum2 scf acf nb random_order n orders init2 scales (flat_tape (concat T2)) = Done o2 ->
+  forall i, (i < n)%nat ->
+    own_col (p i) (o_all o1) = own_col i (o_all o2) /\ own_col (p i) (o_hist o1) = own_col i (o_hist o2) /\
+    own_trace (p i) (o_trace o1) = own_trace i (o_trace o2) /\
+    map (own_samp (p i)) (r_samp (o_rs o1)) = map (own_samp i) (r_samp (o_rs o2)).
+Proof. exact chain_equivariant. Qed.
+Print Assumptions C07_chain_equivariance.
+
+(** (c) personalising individual j ALONE (cohort of one) on its own rows of the tape gives its chain in the batch *)
+Theorem C07_chain_alone : forall A add mul ofQ decide att att1 regv regv1 regsum regsum1 scf acf nb random_order n j sizes
+    orders init init1 scales T T1 o o1,
+  (j < n)%nat ->
+  row_local n 1 j 0 sizes att att1 -> (forall v, row_local n 1 j 0 sizes (regv v) (regv1 v)) -> row_local n 1 j 0 sizes regsum regsum1 ->
+  shaped n sizes init -> shaped 1 sizes init1 -> own j init = own 0 init1 ->
+  tape_fits n sizes random_order (length init) orders T -> tape_fits 1 sizes random_order (length init1) orders T1 ->
+  own_draws j T = own_draws 0 T1 ->
+  personalize_run A add mul ofQ decide att regv regsum scf acf nb random_order n orders init scales (flat_tape (concat T)) = Done o ->
+  personalize_run A add mul ofQ decide att1 regv1 regsum1 scf acf nb random_order 1 orders init1 scales (flat_tape (concat T1)) = Done o1 ->
+  own_col j (o_all o) = own_col 0 (o_all o1) /\ own_col j (o_hist o) = own_col 0 (o_hist o1) /\
+  own_trace j (o_trace o) = own_trace 0 (o_trace o1) /\
+  map (own_samp j) (r_samp (o_rs o)) = map (own_samp 0) (r_samp (o_rs o1)).
+Proof. exact chain_alone. Qed.
+Print Assumptions C07_chain_alone.
+
+(** Non-vacuity: a batch of two individuals and individual 1 alone on its own rows of the tape (3 shuffled iterations, annealing,
+    std adaptation): every hypothesis above holds, both runs succeed, individual 1 accepts some proposals and refuses others,
+    and decides differently from individual 0. *)
+Theorem C07_chain_example :
+  flat_tape (concat exl_T) = PersonalizeChainProofs.ex_tape /\
+  shaped 2 exl_sizes PersonalizeChainProofs.ex_init /\ shaped 1 exl_sizes (reindex_state [1%nat] PersonalizeChainProofs.ex_init) /\
+  own 1 PersonalizeChainProofs.ex_init = own 0 (reindex_state [1%nat] PersonalizeChainProofs.ex_init) /\
+  tape_fits 2 exl_sizes true (length PersonalizeChainProofs.ex_init) PersonalizeChainProofs.ex_orders exl_T /\
+  tape_fits 1 exl_sizes true (length (reindex_state [1%nat] PersonalizeChainProofs.ex_init)) PersonalizeChainProofs.ex_orders (reindex_draws [1%nat] exl_T) /\
+  own_draws 1 exl_T = own_draws 0 (reindex_draws [1%nat] exl_T) /\
+  exists o o1, exl_batch = Done o /\ exl_alone = Done o1 /\
+    own_col 1 (o_all o) = own_col 0 (o_all o1) /\
+    map (fun kl => map (fun r => nth_error (sr_acc r) 1) (snd kl)) (o_trace o)
+      = map (fun kl => map (fun r => nth_error (sr_acc r) 0) (snd kl)) (o_trace o1) /\
+    existsb (fun kl => existsb (fun r => nth 1 (sr_acc r) false) (snd kl)) (o_trace o) = true /\
+    existsb (fun kl => existsb (fun r => negb (nth 1 (sr_acc r) true)) (snd kl)) (o_trace o) = true /\
+    existsb (fun kl => existsb (fun r => negb (Bool.eqb (nth 0 (sr_acc r) false) (nth 1 (sr_acc r) false))) (snd kl)) (o_trace o) = true.
+Proof. exact chain_local_example. Qed.
+Print Assumptions C07_chain_example.
